@@ -13,12 +13,13 @@ import (
 func init() { Registry["C12"] = checkC12 }
 
 func checkC12(p *core.Prog, r *core.Report) {
-	r.Explanation = "Decides structural necessary conditions of election safety on the acceptor side: (R1) every store to the acceptor's accepted number (ArbiterVoter.proposalId) in the proposal handlers happens under the voter mutex on a path that tested new > accepted, new > committed and 'no commit outstanding' (proposalHost empty); every store to the committed number (commitId) in the commit handlers happens under the mutex on a path that tested 'this is the accepted proposal' and new > committed; all other stores to the two numbers are listed lifecycle sites (constructor, load from saved metadata, configuration, leaving the set, the candidate's own bookkeeping after a majority); (R3) the candidate's vote / proposal / commit rounds succeed only with at least len(members)/2+1 answers; (R4) in DoVote a reply becomes the selected candidate only after the eligibility filter (data member, non-zero weight) for that reply, and replaces the selection only on newer log / greater weight / greater host; (R5) the proposal handlers refuse before accepting when the member's own log is newer (CompareAofId(own, proposed) > 0 for a voting data member). NOT decided: any interleaving of two candidates, message loss, that at most one winner emerges, persistence of the committed number across a restart (the candidate-side stores and the save points are listed, not proven), kill -9 of a real cluster."
+	r.Explanation = "Decides structural necessary conditions of election safety on the acceptor side: (R1) every store to the acceptor's accepted number (ArbiterVoter.proposalId) in the proposal handlers happens under the voter mutex on a path that tested new > accepted, new > committed and 'no commit outstanding' (proposalHost empty); every store to the committed number (commitId) in the commit handlers happens under the mutex on a path that tested 'this is the accepted proposal' and new > committed; all other stores to the two numbers are listed lifecycle sites (constructor, load from saved metadata, configuration, leaving the set, the candidate's own bookkeeping after a majority); (R3) the candidate's vote / proposal / commit rounds succeed only with at least len(members)/2+1 answers; (R4) in DoVote a reply becomes the selected candidate only after the eligibility filter (data member, non-zero weight) for that reply, and replaces the selection only on newer log / greater weight / greater host; (R5) the proposal handlers refuse before accepting when the member's own log is newer (CompareAofId(own, proposed) > 0 for a voting data member). (R6) the acceptor's outstanding-commit marker (proposalHost) is cleared only at a closed list of points. NOT decided: any interleaving of two candidates, message loss, that at most one winner emerges, persistence of the committed number across a restart (the candidate-side stores and the save points are listed, not proven), kill -9 of a real cluster."
 	r.Assumptions = []string{"Go type checker, go/ssa and VTA call graph are correct for /repo", "the voter mutex serialises the acceptor handlers"}
 	c12R1(p, r)
 	c12R3(p, r)
 	c12R4(p, r)
 	c12R5(p, r)
+	c12R6(p, r)
 }
 
 // lifecycle stores of the two numbers outside the acceptor handlers
@@ -291,5 +292,62 @@ func c12R5(p *core.Prog, r *core.Report) {
 			},
 		})
 		ex.Run(fn, nil)
+	}
+}
+
+// c12R6: ArbiterVoter.proposalHost is the acceptor's "commit outstanding"
+// marker: set when a commit is accepted, it makes the proposal handlers refuse
+// every other candidate until the winner's announcement arrives (or the winner
+// is seen to fail). Clearing it anywhere else lets a member that already
+// accepted one candidate's commit accept another's - two majorities. Who may
+// clear it is a closed list.
+var c12MarkerClear = map[string]string{
+	"server.NewArbiterVoter":                                    "constructor",
+	"server.(*ArbiterVoter).DoCommit":                           "the candidate's own commit round failed (no majority)",
+	"server.(*ArbiterVoter).DoAnnouncement":                     "announcing to the elected leader failed: restart the election",
+	"server.(*ArbiterManager).QuitMember":                       "member leaves the replica set",
+	"server.(*ArbiterManager).voteSucced":                       "the elected member is not reachable after the election",
+	"server.(*ArbiterManager).memberStatusUpdated":              "the elected member / the committing candidate went offline",
+	"server.(*ArbiterManager).commandHandleAnnouncementCommand": "the winner's announcement arrived: election finished",
+}
+
+func c12R6(p *core.Prog, r *core.Report) {
+	const rule = "C12/R6"
+	r.Rule(rule, "the acceptor's outstanding-commit marker (ArbiterVoter.proposalHost) is cleared only at the listed points (failed own round, announcement, winner offline, leaving the set)", 6)
+	mk := fk("server.ArbiterVoter", "proposalHost")
+	for _, fn := range p.FuncsIn("server") {
+		if fn.Blocks == nil {
+			continue
+		}
+		name := core.FuncName(fn)
+		for fn2 := fn; fn2.Parent() != nil; fn2 = fn2.Parent() {
+			name = core.FuncName(fn2.Parent())
+		}
+		n := 0
+		for _, b := range fn.Blocks {
+			for _, ins := range b.Instrs {
+				st, ok := ins.(*ssa.Store)
+				if !ok {
+					continue
+				}
+				k, ok := storeKey(st.Addr)
+				if !ok || k != mk {
+					continue
+				}
+				c, isConst := st.Val.(*ssa.Const)
+				if !isConst || c.Value == nil || c.Value.ExactString() != `""` {
+					continue
+				}
+				n++
+				key := fmt.Sprintf("%s: clear marker#%d", name, n)
+				if why, ok := c12MarkerClear[name]; ok {
+					r.Hold(rule, key, p.InstrPos(ins), "listed: "+why)
+				} else if p.IsNewFunc(fn) {
+					r.Undecide(rule, key, p.InstrPos(ins), "the marker is cleared in a function the rule table does not know")
+				} else {
+					r.Violate(rule, key, p.InstrPos(ins), "the outstanding-commit marker is cleared here: a member that already accepted another candidate's commit forgets it and can accept (or gather) a second commit majority - two leaders", nil)
+				}
+			}
+		}
 	}
 }
